@@ -23,6 +23,7 @@ RULE = ("Per rule: (1) every word over the rule's child names + one foreign name
         "rest by hash, only when longer than the exhaustive bound).")
 RULE += ("  Call forms: the parent validated on its own and as an inner node of a minimal valid host tree (validate.tree from the host's root), with the same judgement of outcome, exception class and codes.")
 RULE += ('  Metamorphic: the same children dressed in a prefix bound (in their own map) to a foreign namespace, qualified extras and tail text give the same outcome, error class and codes.')
+RULE += ('  Pumped words: a child the rule allows without bound repeated 257 / 300 (thorough: 1 025) times inside a member word.')
 ASSUMPTIONS = [
     "rules.json is the statement of each content model; mixed-content rule set taken from the property text",
     "words on which the strict and loose reading of a choice occurrence differ are unspecified: run, not judged",
